@@ -545,6 +545,9 @@ func (w *vc04World) cookie(spec string, mac []byte, sv, cv uint16) []byte {
 	if p[0] == "P" {
 		return vc04Mutate(w.lastPado, p[1])
 	}
+	if p[0] == "r" { // raw bytes nobody issued
+		return vc04Hex(p[1])
+	}
 	return vc04Mutate(w.gen(vc04Hex(p[1]), vc04U16(p[2]), vc04U16(p[3])), p[4])
 }
 
@@ -577,6 +580,14 @@ func (w *vc04World) tags(spec string, mac []byte, sv, cv uint16) []byte {
 			out = append(out, vc04Tag(0x0120, vc04Hex(it[1:]))...)
 		case 'r':
 			out = append(out, vc04Hex(it[1:])...)
+		case 'n':
+			out = append(out, vc04Tag(0x0101, vc04Hex(it[1:]))...)
+		case 'a':
+			out = append(out, vc04Tag(0x0102, vc04Hex(it[1:]))...)
+		case 'y':
+			out = append(out, vc04Tag(0x0110, vc04Hex(it[1:]))...)
+		case 'v':
+			out = append(out, vc04Tag(0x0105, vc04Hex(it[1:]))...)
 		case 'c':
 			out = append(out, vc04Tag(0x0104, w.cookie(it[1:], mac, sv, cv))...)
 		}
@@ -621,7 +632,11 @@ func (w *vc04World) op1(tok string) string {
 	switch p[0] {
 	case "I":
 		mac, sv, cv := vc04Hex(p[1]), vc04U16(p[2]), vc04U16(p[3])
-		c.handlePADI(w.pkt(mac, sv, cv, layers.PPPoECodePADI, 0, vc04Tag(0x0101, nil)))
+		pl := vc04Tag(0x0101, nil)
+		if len(p) > 4 {
+			pl = w.tags(p[4], mac, sv, cv)
+		}
+		c.handlePADI(w.pkt(mac, sv, cv, layers.PPPoECodePADI, 0, pl))
 		eg, _ := w.bus.take()
 		for _, e := range eg {
 			if e.code == byte(layers.PPPoECodePADO) {
